@@ -518,7 +518,11 @@ def run_check(pid, cfg, tier, seed, rundir, t0, replay):
 
     # ---- 4. verdict
     open_known = [e for e in known if e["status"] == "open"]
-    disagree = [(c, v) for c, v in zip(cases, verdicts) if not v[2] and not v[0]]
+    # A known-finding class excuses the failed PROPERTY instance only: the model still has to
+    # predict what the real code does there (agree), otherwise the code now fails in a different way
+    # than the recorded finding.  (VERIF_KNOWN_AGREE=0 restores the old, laxer rule.)
+    strict_known = os.environ.get("VERIF_KNOWN_AGREE", "1") != "0"
+    disagree = [(c, v) for c, v in zip(cases, verdicts) if not v[0] and (strict_known or not v[2])]
     propfail = [(c, v) for c, v in zip(cases, verdicts) if not v[2] and not v[1]]
     in_known = sum(1 for v in verdicts if v[2])
     for e in open_known:
@@ -546,7 +550,7 @@ def run_check(pid, cfg, tier, seed, rundir, t0, replay):
         else:
             if disagree:
                 c, v = min(disagree, key=lambda cv: size_of(cv[0]["in"]))
-                c = shrink(cfg, exe, c, rundir, lambda w: not w[2] and not w[0])
+                c = shrink(cfg, exe, c, rundir, lambda w: not w[0] and (strict_known or not w[2]))
                 what = ("correspondence %s: implementation and model disagree on this input; "
                         "the property instance still holds on every case explored "
                         "(%d cases)" % (cfg["check_fn"], len(cases)))
